@@ -36,18 +36,23 @@ func (cw *CountingWriter) ReadFrom(r io.Reader) (n int64, err error) {
 	buf := make([]byte, 32*1024)
 	n = 0
 	for {
-		var nr int
-		nr, err = r.Read(buf)
-		if err != nil {
-			return
-		}
-
-		var nw int
-		nw, err = cw.w.Write(buf[:nr])
-		if err != nil {
+		nr, rerr := r.Read(buf)
+		if nr > 0 {
+			nw, werr := cw.w.Write(buf[:nr])
 			n += int64(nw)
-			cw.Written += n
-			return
+			cw.Written += int64(nw)
+			if werr != nil {
+				return n, werr
+			}
+			if nw < nr {
+				return n, io.ErrShortWrite
+			}
+		}
+		if rerr == io.EOF {
+			return n, nil
+		}
+		if rerr != nil {
+			return n, rerr
 		}
 	}
 }
